@@ -182,6 +182,8 @@ pub fn gen_sql(rng: &mut Rng) -> (String, bool) {
                 // two grouping keys: neither is the sole key, so only a key that is unique in the input stays unique
                 (Some(k), 0) if rng.chance(1, 2) => { let k2 = pick_col(rng, &s, "it").map(|c| c.0.clone()).unwrap_or(k.clone());
                     if k2 == k { (format!("SELECT {k} AS k, {} FROM {}{where_} GROUP BY {k}", aggs.join(", "), s.from), false) }
+                    // DISTINCT over a grouping of which only one key is selected: groups that differ in the other key collapse
+                    else if rng.chance(1, 4) { if rng.chance(1, 2) { (format!("SELECT DISTINCT {k} AS k FROM {}{where_} GROUP BY {k}, {k2}", s.from), false) } else { (format!("SELECT DISTINCT {k} AS k, count(*) AS n FROM {}{where_} GROUP BY {k}, {k2}", s.from), false) } }
                     else if rng.chance(1, 3) { (format!("SELECT {k} AS k, {k2} AS k2 FROM {}{where_} GROUP BY {k}, {k2}", s.from), false) }
                     else { (format!("SELECT {k} AS k, {k2} AS k2, {} FROM {}{where_} GROUP BY {k}, {k2}", aggs.join(", "), s.from), false) } }
                 (Some(k), 0) | (Some(k), 1) => { let having = if rng.chance(1, 4) { " HAVING count(*) > 1" } else { "" }; (format!("SELECT {k} AS k, {} FROM {}{where_} GROUP BY {k}{having}", aggs.join(", "), s.from), false) }
@@ -467,6 +469,9 @@ pub fn gen_c08x(rng: &mut Rng, _k: usize, _tier: &str) -> J {
         ("SELECT CAST(a AS FLOAT) / 3 AS q, CAST(c AS INTEGER) AS i, CAST(b AS TEXT) AS t FROM t1".to_string(), false),
         ("SELECT a AS x FROM t1 AS u WHERE u.b > 0".to_string(), false),
         ("SELECT count(DISTINCT d) AS n, count(DISTINCT b) AS m FROM t1".to_string(), false),
+        ("SELECT DISTINCT b AS b FROM t1 GROUP BY b, d".to_string(), false),
+        ("SELECT DISTINCT d AS d, count(*) AS n FROM t1 GROUP BY d, b".to_string(), false),
+        ("WITH g AS (SELECT DISTINCT b AS b FROM t1 GROUP BY b, d) SELECT count(*) AS n FROM g".to_string(), false),
         // a CTE name defined again, differently, in a nested WITH (derived table / CTE body): the inner definition shadows the outer one
         (format!("WITH t AS (SELECT a AS a FROM t1 WHERE b > 0) SELECT s.x AS x FROM (WITH t AS (SELECT a + {} AS a FROM t1) SELECT a AS x FROM t) AS s", rng.range(1, 9)), false),
         (format!("WITH t AS (SELECT a AS a FROM t1), u AS (WITH t AS (SELECT a + {k} AS a FROM t2) SELECT a AS a FROM t) SELECT t.a AS x, u.a AS y FROM t JOIN u ON t.a + {k} = u.a", k = rng.range(1, 9)), false),
